@@ -3,10 +3,12 @@ package main
 // C17 — JSON report codec and text forms of stream values.
 
 import (
+	"bytes"
 	"encoding/json"
 	"fmt"
 	"math"
 	"math/big"
+	"math/rand"
 	"strings"
 
 	"github.com/shopspring/decimal"
@@ -222,6 +224,93 @@ func init() {
 			res["_rt_err"] = uerr.Error()
 		} else {
 			res["_rt"] = J{"digest": hexs(d[:]), "seqNr": S(s), "report": hexs(rep), "sigs": cdcSigsJ(sigs)}
+		}
+		return res
+	})
+	// {"len","nsigs","seed"} -> builds an encoded report of exactly len bytes (values padded with long decimals), packs it with
+	// nsigs signatures, unpacks and decodes it again; only a summary comes back (the report itself would be megabytes)
+	RegOp("json.packsized", func(in J) any {
+		in = normalise(in).(map[string]any)
+		want := int(jU64(in["len"]))
+		rnd := rand.New(rand.NewSource(int64(jU64(in["seed"]))))
+		digits := func(n int) string {
+			b := make([]byte, n)
+			for i := range b {
+				b[i] = byte('0' + rnd.Intn(10))
+			}
+			b[0] = byte('1' + rnd.Intn(9))
+			return string(b)
+		}
+		mk := func(ds []string) (llo.Report, []byte, error) {
+			r := llo.Report{SeqNr: 1 + uint64(rnd.Intn(1000)), ChannelID: rnd.Uint32(), ValidAfterNanoseconds: rnd.Uint64(), ObservationTimestampNanoseconds: rnd.Uint64()}
+			rnd.Read(r.ConfigDigest[:])
+			for _, d := range ds {
+				c, _ := new(big.Int).SetString(d, 10)
+				r.Values = append(r.Values, llo.ToDecimal(decimal.NewFromBigInt(c, 0)))
+			}
+			b, err := codec.Encode(r, llotypes.ChannelDefinition{})
+			return r, b, err
+		}
+		const chunk = 4000
+		var ds []string
+		for n := want; n > 2*chunk+600; n -= chunk + 20 {
+			ds = append(ds, digits(chunk))
+		}
+		ds = append(ds, "1")
+		_, b0, err := mk(ds)
+		if err != nil {
+			return J{"harness-error": err.Error()}
+		}
+		// fixed-width header fields may differ between the two builds by a few digits: converge on the exact length
+		var r llo.Report
+		var b []byte
+		last := 1 + want - len(b0)
+		for tries := 0; tries < 200; tries++ {
+			if last < 1 {
+				return J{"harness-error": fmt.Sprintf("cannot size a report to %d bytes", want)}
+			}
+			ds[len(ds)-1] = digits(last)
+			r, b, err = mk(ds)
+			if err != nil {
+				return J{"harness-error": err.Error()}
+			}
+			if len(b) == want {
+				break
+			}
+			last += want - len(b)
+		}
+		if len(b) != want {
+			return J{"harness-error": fmt.Sprintf("cannot size a report to %d bytes (got %d)", want, len(b))}
+		}
+		var sigs []types.AttributedOnchainSignature
+		for k := int(jU64(in["nsigs"])); k > 0; k-- {
+			sg := make([]byte, 65)
+			rnd.Read(sg)
+			sigs = append(sigs, types.AttributedOnchainSignature{Signature: sg, Signer: commontypes.OracleID(rnd.Intn(256))})
+		}
+		seq := rnd.Uint64()
+		packed, err := codec.Pack(r.ConfigDigest, seq, b, sigs)
+		if err != nil {
+			return cdcTextErr(err)
+		}
+		res := resOK(J{"reportLen": len(b), "values": len(r.Values)})
+		d, s, rep, gs, uerr := codec.Unpack(packed)
+		if uerr != nil {
+			res["_rt_err"] = uerr.Error()
+		} else {
+			res["_rt_same"] = d == r.ConfigDigest && s == seq && bytes.Equal(rep, b) && cdcSame(normalise(cdcSigsJ(gs)), normalise(cdcSigsJ(sigs)))
+			dec, derr := codec.Decode(rep)
+			if derr != nil {
+				res["_decode_err"] = derr.Error()
+			} else {
+				same := dec.ConfigDigest == r.ConfigDigest && dec.SeqNr == r.SeqNr && dec.ChannelID == r.ChannelID && len(dec.Values) == len(r.Values)
+				for i := 0; same && i < len(dec.Values); i++ {
+					a, ok1 := dec.Values[i].(*llo.Decimal)
+					w, ok2 := r.Values[i].(*llo.Decimal)
+					same = ok1 && ok2 && a.Decimal().Equal(w.Decimal())
+				}
+				res["_decode_same"] = same
+			}
 		}
 		return res
 	})
@@ -488,6 +577,22 @@ func genC17(g *G) {
 		}
 		g.Emit(J{"op": "json.unpack", "msg": J{"configDigest": cd, "seqNr": S(cdcRndU64(g)), "report": hexs(b), "sigs": sigs}}, ptag)
 	}
+	// ---- sizes exactly at the documented limits: a full channel (MaxStreamsPerChannel values) and a report of MaxReportLength bytes
+	for _, n := range []int{llo.MaxStreamsPerChannel - 1, llo.MaxStreamsPerChannel} {
+		vals := make([]any, n)
+		for k := range vals {
+			vals[k] = svJ(cdcTextSV(g, 0))
+		}
+		digest := make([]byte, 32)
+		g.R.Read(digest)
+		g.Emit(J{"op": "json.encode", "digest": hexs(digest), "report": J{"seqNr": S(1 + cdcRndU64(g)%1000), "channelID": S(cdcRndU32(g)), "validAfter": S(cdcRndU64(g)), "obsTs": S(cdcRndU64(g)), "values": vals, "specimen": false}},
+			"json-encode", "json-full-channel")
+	}
+	for _, l := range []int{llo.MaxReportLength, llo.MaxReportLength - 1, llo.MaxReportLength - 150, llo.MaxReportLength - 700, llo.MaxReportLength / 2, 1 << 20} {
+		for _, ns := range []int{0, 4, 31} {
+			g.EmitImpl(J{"op": "json.packsized", "len": l, "nsigs": ns, "seed": g.R.Intn(1 << 30)}, "json-pack", "json-pack-at-report-limit")
+		}
+	}
 	// ---- implementation only: arbitrary bytes / loose JSON
 	for _, s := range []string{``, `null`, `{}`, `[]`, `{"SeqNr":1}`, `{"SeqNr":1,"ConfigDigest":"00"}`, `{"SeqNr":1,"ConfigDigest":"` + strings.Repeat("ab", 32) + `","Values":[null]}`,
 		`{"SeqNr":1,"ConfigDigest":"` + strings.Repeat("ab", 32) + `","Values":[{"t":2,"v":"TSV{ObservedAtNanoseconds: 1, StreamValue: null}"}]}`,
@@ -584,6 +689,17 @@ func monC17(op J, res any) (viol []Violation, nontrivial bool) {
 		want := normalise(J{"digest": op["digest"], "seqNr": jBig(op["seqNr"]).String(), "report": op["report"], "sigs": cdcSigsJ(cdcJSigs(op["sigs"]))})
 		if r["_rt"] == nil || !cdcSame(r["_rt"], want) {
 			bad("pack-unpack-differs", "Unpack(Pack(t)) differs from t")
+		}
+	case "json.packsized":
+		nontrivial = true
+		if !ok {
+			bad("json-pack-rejected", "Pack failed on an encoded report")
+			return
+		}
+		if r["_rt_err"] != nil || r["_rt_same"] != true {
+			bad("pack-unpack-differs", "Unpack(Pack(t)) differs from t for a report of "+fmt.Sprint(op["len"])+" bytes: "+fmt.Sprint(r["_rt_err"]))
+		} else if r["_decode_err"] != nil || r["_decode_same"] != true {
+			bad("json-roundtrip-differs", "the unpacked report does not decode back to the report that was encoded: "+fmt.Sprint(r["_decode_err"]))
 		}
 	case "json.decode", "json.unpack", "json.decodebytes":
 		nontrivial = true
